@@ -102,3 +102,21 @@ class Pool(object):
 
     def runtimes(self):
         return [m for m in CANDIDATES if m in self.found]
+
+
+def other_hosts(pool):
+    """host interpreters other than the one running the checks"""
+    import sys
+    me = "%d.%d" % sys.version_info[:2]
+    return [h for h in pool.hosts() if h != me]
+
+
+def host_check(pool, host, src, cfgs, **flags):
+    """run the whole-program oracle for `src` under another host interpreter.
+    returns (status, failures) like oracle.check_program, or raises HarnessError"""
+    job = {"op": "check", "repo": env.REPO, "src": src, "cfgs": [list(c) for c in cfgs]}
+    job.update(flags)
+    r = pool.get(host).call(job, timeout=180)
+    if r.get("worker_error") or not r.get("ok"):
+        raise env.HarnessError("host worker %s: %s" % (host, r.get("err")))
+    return r["status"], [(tuple(c), d, None) for c, d in r["failures"]]
